@@ -9,6 +9,7 @@
 #include <yaclib/async/run.hpp>
 #include <yaclib/exe/manual.hpp>
 #include <yaclib/lazy/schedule.hpp>
+#include <yaclib/lazy/make.hpp>
 #include <yaclib/async/wait.hpp>
 #include <yaclib/async/wait_for.hpp>
 #include <yaclib/async/wait_until.hpp>
@@ -522,6 +523,69 @@ void CoAwaitCase(Ctx& ctx) {
   ctx.Check(inside == 0, "co-await-allocates", "C20", "%s (n=%d, %s) made %ld heap allocations", kForm[form], n,
             ready ? "ready" : "pending", inside);
 }
+
+// round 8: a heap-owning, copyable value travelling through single-step forms must be moved, never copied:
+// co_await std::move(future) hands it to the coroutine, MakeTask / MakeFuture store the caller's rvalue.
+void HeapValueCase(Ctx& ctx) {
+  int form = static_cast<int>(ctx.rng.Below(4));  // 0 co_await std::move(f), 1 MakeTask(std::move(v)), 2 MakeTask<V>(std::move(v)), 3 MakeFuture
+  bool ready = ctx.rng.Coin();
+  long c0 = Blob::copies;
+  long allocs = -1;
+  long limit = 0;
+  bool intact = true;
+  if (form == 0) {
+    InputsT<Blob> in{1};
+    long inside = -1;
+    auto co = [&]() -> yaclib::Future<int> {
+      long a0 = News();
+      Blob b = co_await std::move(in.fs[0]);
+      inside = News() - a0;
+      co_return static_cast<int>(b.data.size()) * 100 + b.data[0];
+    };
+    if (ready) {
+      in.SetAll(-1);
+    }
+    auto f = co();
+    if (!ready) {
+      in.SetAll(-1);
+    }
+    int got = std::move(f).Get().Ok();
+    intact = got == 800;
+    allocs = inside;
+    limit = 0;
+  } else {
+    Blob v{7};
+    long a0 = News();
+    if (form == 1) {
+      auto t = yaclib::MakeTask(std::move(v));
+      allocs = News() - a0;
+      auto r = std::move(t).Get();
+      intact = std::as_const(r).Value().data.size() == 8 && std::as_const(r).Value().data[0] == 7;
+    } else if (form == 2) {
+      auto t = yaclib::MakeTask<Blob>(std::move(v));
+      allocs = News() - a0;
+      auto r = std::move(t).Get();
+      intact = std::as_const(r).Value().data.size() == 8 && std::as_const(r).Value().data[0] == 7;
+    } else {
+      auto f = yaclib::MakeFuture(std::move(v));
+      allocs = News() - a0;
+      auto r = std::move(f).Get();
+      intact = std::as_const(r).Value().data.size() == 8 && std::as_const(r).Value().data[0] == 7;
+    }
+    limit = 1;
+  }
+  long copies = Blob::copies - c0;
+  static const char* const kForm[] = {"co_await std::move(future<heap value>)", "MakeTask(std::move(v))", "MakeTask<V>(std::move(v))",
+                                      "MakeFuture(std::move(v))"};
+  ctx.Note("%s%s: %ld allocations (limit %ld), %ld payload copies", kForm[form], form == 0 ? (ready ? ", ready" : ", completed later") : "",
+           allocs, limit, copies);
+  ctx.SetNontrivial(true);
+  ctx.Observe(static_cast<u64>(form * 2 + (ready ? 1 : 0)));
+  ctx.Check(allocs <= limit, form == 0 ? "co-await-allocates" : "step-allocations", "C20", "%s made %ld heap allocations, at most %ld allowed",
+            kForm[form], allocs, limit);
+  ctx.Check(copies == 0, "payload-copied", "C20", "%s copied the heap-owning payload %ld times instead of moving it", kForm[form], copies);
+  ctx.Check(intact, "value-intact", "C20", "%s delivered a different value", kForm[form]);
+}
 #endif
 
 }  // namespace
@@ -542,6 +606,9 @@ VF_CELL(al_strand, "strand-submit", "C20", 3) {
   StrandCase(ctx);
 }
 #if YACLIB_CORO != 0
+VF_CELL(al_heapvalue, "heap-value-moves", "C20", 4) {
+  HeapValueCase(ctx);
+}
 VF_CELL(al_coawait, "co-await", "C20", 6) {
   CoAwaitCase(ctx);
 }
